@@ -283,9 +283,10 @@ def group_spec(g, tier):
         return ["Jx", "Mx"], ops, "snap"
     if g == "tvd-default":
         ops = [op_sb("a66", 0.1, None), op_sb("a66", 0.4, None), op_sb("a66", 0.1, 1.0), op_sb("a66", 0.1, None, iso=True)]
-        ops += [op_sb("b49", 0.4, None), op_tvd("a66", 0.1, 1.0), op_tvd("a66", 0.4, 2.0)]
+        ops += [op_sb("b49", 0.4, None), op_tvd("a66", 0.1, 1.0), op_tvd("a66", 0.4, 1.0)]
         if tier == "thorough":
-            ops += [op_sb("a66", 0.4, 1.0), op_sb("a66", 0.1, None, om=2.0), op_sb("a66", 0.1, None, adaptive=True), op_tvd("I66", 0.1, 1.0)]
+            ops += [op_sb("a66", 0.4, 1.0), op_sb("a66", 0.1, None, om=2.0), op_sb("a66", 0.1, None, adaptive=True)]
+            ops += [op_tvd("a66", 0.1, 2.0), op_tvd("I66", 0.1, 1.0)]
         return [], ops, "snap"
     if g == "tvd-explicit":
         ops = [op_sb("a66", 0.1, None, s="Jx"), op_sb("a66", 0.4, None, s="Jx"), op_sb("a66", 0.1, 1.0, s="Jx")]
